@@ -40,9 +40,24 @@ fn count(log: &[sysx::Call], nr: i64) -> Counts {
     }
 }
 
-fn transfer<W: Write + Send + 'static, R: Read + Send + 'static>(name: &str, mut w: W, mut rd: R, r: &mut Report) {
+const GREETING: &[u8; 4] = b"HELO";
+
+/// `greeting`: the bidirectional variant — the reading end first sends 4 bytes which the writer leaves
+/// unread in its receive queue during the whole transfer (it reads them only after its last write_all).
+fn transfer<W: Read + Write + Send + 'static, R: Read + Write + Send + 'static>(stream: &str, greeting: bool, mut w: W, mut rd: R, r: &mut Report) {
     r.eval();
     r.nontrivial_unique();
+    let label = if greeting { format!("{stream}+unread-greeting") } else { stream.to_string() };
+    let name = label.as_str();
+    let what = if greeting { "bulk-transfer-bidir" } else { "bulk-transfer" };
+    if greeting {
+        if let Err(e) = rd.write_all(GREETING) {
+            r.cap(format!("{name}: sending the greeting failed: {e}"));
+            return;
+        }
+        // let it arrive in the writer's receive queue
+        std::thread::sleep(Duration::from_millis(20));
+    }
     let data = pattern(TOTAL);
     let d2 = data.clone();
     let wt = std::thread::spawn(move || {
@@ -62,6 +77,16 @@ fn transfer<W: Write + Send + 'static, R: Read + Send + 'static>(name: &str, mut
                     }
                     off = end;
                     i += 1;
+                }
+                if greeting {
+                    // only now the writer looks at what the peer sent first
+                    let mut g = [0u8; 4];
+                    if let Err(e) = w.read_exact(&mut g) {
+                        return Err(format!("reading the greeting after the transfer failed: {e}"));
+                    }
+                    if &g != GREETING {
+                        return Err(format!("greeting arrived as {g:?}"));
+                    }
                 }
                 drop(w);
                 Ok(())
@@ -118,7 +143,7 @@ fn transfer<W: Write + Send + 'static, R: Read + Send + 'static>(name: &str, mut
     } else {
         r.outcome(&format!("{name}:reader-never-waited"));
     }
-    let rep = json!({"phase": "bulk", "stream": name});
+    let rep = json!({"phase": "bulk", "stream": stream, "greeting": greeting});
     match (wres, rres) {
         (Ok(Ok(())), Ok(Ok(got))) => {
             if got == data {
@@ -133,8 +158,8 @@ fn transfer<W: Write + Send + 'static, R: Read + Send + 'static>(name: &str, mut
                     "bytes-reordered"
                 };
                 r.violation(
-                    &format!("C16:{name}::bulk-transfer:{kind}"),
-                    format!("REAL kernel, 8 MiB: sent {} bytes, received {} bytes, first difference at offset {first}", data.len(), got.len()),
+                    &format!("C16:{stream}::{what}:{kind}"),
+                    format!("REAL kernel, 8 MiB ({name}): sent {} bytes, received {} bytes, first difference at offset {first}", data.len(), got.len()),
                     rep,
                 );
             }
@@ -142,7 +167,13 @@ fn transfer<W: Write + Send + 'static, R: Read + Send + 'static>(name: &str, mut
         (w, rd) => {
             let msg = format!("writer: {:?}; reader: {:?}", w.map(|x| x.err()), rd.map(|x| x.map(|g| g.len())));
             r.outcome(&format!("{name}:error"));
-            r.violation(&format!("C16:{name}::bulk-transfer:error"), format!("REAL kernel, 8 MiB transfer did not complete: {msg}"), rep);
+            // the statement lets no error out of a transfer whose peer keeps reading; a would-block error out of the waiting write is named separately
+            let kind = if msg.contains("EAGAIN") { "would-block-surfaced" } else { "error" };
+            r.violation(
+                &format!("C16:{stream}::{what}:{kind}"),
+                format!("REAL kernel, 8 MiB transfer ({name}) did not complete although the peer reads everything: {msg}"),
+                rep,
+            );
         }
     }
 }
@@ -157,20 +188,28 @@ pub fn body() -> Report {
     let p = format!("{dir}/s\0");
     let path = tiny_std::UnixStr::try_from_str(&p).expect("path");
     match UnixListener::bind(path) {
-        Ok(mut l) => match (UnixStream::connect(path), l.accept()) {
-            (Ok(c), Ok(s)) => transfer("UnixStream", c, s, &mut r),
-            (a, b) => r.cap(format!("unix set-up failed: {:?} {:?}", a.err(), b.err())),
-        },
+        Ok(mut l) => {
+            for greeting in [false, true] {
+                match (UnixStream::connect(path), l.accept()) {
+                    (Ok(c), Ok(s)) => transfer("UnixStream", greeting, c, s, &mut r),
+                    (a, b) => r.cap(format!("unix set-up failed: {:?} {:?}", a.err(), b.err())),
+                }
+            }
+        }
         Err(e) => r.cap(format!("unix bind failed: {e}")),
     }
     let _ = std::fs::remove_dir_all(&dir);
     // tcp
     match TcpListener::bind(&SocketAddress::new(Ip::V4([127, 0, 0, 1]), 0)) {
         Ok(mut l) => match l.local_addr() {
-            Ok(addr) => match (TcpStream::connect(&addr), l.accept()) {
-                (Ok(c), Ok(s)) => transfer("TcpStream", c, s, &mut r),
-                (a, b) => r.cap(format!("tcp set-up failed: {:?} {:?}", a.err(), b.err())),
-            },
+            Ok(addr) => {
+                for greeting in [false, true] {
+                    match (TcpStream::connect(&addr), l.accept()) {
+                        (Ok(c), Ok(s)) => transfer("TcpStream", greeting, c, s, &mut r),
+                        (a, b) => r.cap(format!("tcp set-up failed: {:?} {:?}", a.err(), b.err())),
+                    }
+                }
+            }
             Err(e) => r.cap(format!("local_addr failed: {e}")),
         },
         Err(e) => r.cap(format!("tcp bind failed: {e}")),
@@ -184,7 +223,8 @@ pub fn phase(args: &Args) -> Report {
     r.exhaustive = false;
     r.rule = "SAMPLED, not exhaustive: one real-kernel transfer of 8 MiB per stream type (UnixStream over a bound path, TcpStream over loopback) through the real Write::write_all / Read::read \
               impls with a fixed adversarial chunk-size schedule (1..17-byte writes, then 1 B .. 1 MiB; reads of 1 B .. 256 KiB) and a reader that starts late and pauses, so that the \
-              send buffer fills; both sides run under the logging syscall seam to count EAGAIN answers and ppoll calls; oracle: received bytes == sent bytes"
+              send buffer fills; both sides run under the logging syscall seam to count EAGAIN answers and ppoll calls; oracle: received bytes == sent bytes and no error. Each stream type runs twice: one-directional, and BIDIRECTIONAL — the reading end first sends a 4-byte \
+              greeting that the writer leaves unread in its receive queue until its last write_all returned (then it reads and checks it), so the writer waits for room with inbound data pending"
         .into();
     r.bound("bytes_per_stream", TOTAL);
     r
